@@ -155,7 +155,11 @@ func hostile(rng *rand.Rand, d *Doc) {
 		case 5:
 			p.Sur = []string{"9lives", "Émile", "O'Neil", "'t Hooft", "Øst", "_x", "-dash", "ßen"}[rng.Intn(8)] + p.Sur
 		case 6:
-			if len(d.Sources) > 0 {
+			if len(d.Sources) >= 2 && rng.Intn(2) == 0 {
+				// a pointer and what the page-name escaping of another pointer looks like
+				pair := [][]string{{"a/b", "a-2fb"}, {"places", "-70laces"}, {"S 1", "S-201"}, {"a-b", "a-2db"}}[rng.Intn(4)]
+				d.Sources[0].P, d.Sources[1].P = pair[0], pair[1]
+			} else if len(d.Sources) > 0 {
 				si := rng.Intn(len(d.Sources))
 				d.Sources[si].P = []string{"../x", "a/b", "sources", "places", "..", "S 1", "a-b", "individuals-a"}[rng.Intn(8)]
 				for o := range d.Sources { // pointers stay unique
